@@ -43,7 +43,9 @@ def generate(rng, tier):
                     alg = alg.replace("K", "K").replace("k", "K")
                 l = lead.encode() + alg.encode() + ws(rng).encode() + b"(" + nm + b")" + ws(rng).encode() + b"=" + ws(rng).encode() + dgen.hexhash(rng).encode() + tail.encode()
             elif r < 0.65:
-                l = lead.encode() + b"Size" + ws(rng).encode() + b"(" + nm + b")" + ws(rng).encode() + b"=" + ws(rng).encode() + str(dgen.size(rng)).encode() + b" bytes" + tail.encode()
+                l = lead.encode() + b"Size" + ws(rng).encode() + b"(" + nm + b")" + ws(rng).encode() + b"=" + ws(rng).encode() + (str(dgen.size(rng)).encode() if rng.random() < 0.8 else
+                     # valid sizes in unusual spellings: leading zeros, a '+', both, at and beyond 20 characters
+                     rng.choice([b"000000000000000000267029", b"+18446744073709551615", b"00000000000000000000", b"+0", b"+000000000000000000007", b"018446744073709551615", b"0" * 40 + b"5"])) + b" bytes" + tail.encode()
             elif r < 0.72:
                 l = rng.choice([b"# comment", b"", b"   ", b"#SHA1 (x) = 1", b"\t# c"])
             elif r < 0.8:
